@@ -8,7 +8,8 @@ import MakoModel.Generated.Conc
 /-!
 # C16 – concurrent lookups and renders behave like some sequential execution
 
-All theorems but the two regenerated-shape obligations are invariants of `Conc.step`, proved by induction over
+All theorems but the three regenerated-shape obligations (`memo_cells_stored_complete`,
+`module_namespace_imports_through_lock`, `lru_entry_published_with_value`) are invariants of `Conc.step`, proved by induction over
 `Conc.run`: they hold after ANY schedule (`List Tid`), for any number of threads and any thread programs.
 
 OPEN: nothing.  (The two defects this check found – a stale second-chance hit and a `KeyError` from `adjust_uri` on a
@@ -251,6 +252,15 @@ theorem memo_cells_stored_complete :
     module another thread is still initialising is already visible. -/
 theorem module_namespace_imports_through_lock :
     Generated.Conc.importCells.length = 1 ∧ Generated.Conc.importCells.all (fun c => c.2) = true := by decide
+
+/-- The entries of the bounded collection are read by `get_template` WITHOUT the mutex (the hit path), so an entry
+    must carry its value at the moment it is inserted – the model's `W` step (`setItem`) inserts key and template at
+    once.  On the code as it is now (regenerated): every object `LRUCache.__setitem__` inserts into the underlying dict
+    is an `_Item(key, value)` built from the method's own `value` argument, and `_Item.__init__` stores that argument
+    (an existing item whose value is replaced is already complete).  Together with `returns_complete` this is why a
+    reader never sees an entry without a template. -/
+theorem lru_entry_published_with_value :
+    Generated.Conc.lruEntryCells.length = 1 ∧ Generated.Conc.lruEntryCells.all (fun c => c.2) = true := by decide
 
 /-- Renders are independent: (1) a step of thread `a` leaves the record of every other thread (program counter,
     per-render context and buffers, results) untouched; (2) every shared memo cell is unset or holds the one value
